@@ -413,6 +413,15 @@ func (st *clientState) exec(op Op) (r OpResult) {
 		}
 		v.Release()
 		delete(st.views, op.V)
+	case "ConvertAndReset":
+		// a converter that is restarted again and again, each time right after it
+		// converted something (it then has an idle process)
+		v := mgr.GetView()
+		if sc, err := v.Stream(op.Stream); err == nil && sc.Stream() != nil {
+			sc.Data(op.Conv)
+		}
+		v.Release()
+		r.Err = errStr(mgr.ResetConverter(op.Conv))
 	case "StormData":
 		// many viewers at once: op.V concurrent on-demand conversions of distinct
 		// streams with one converter (more callers than converter processes)
